@@ -3,7 +3,9 @@
 // (the limit-free query result).
 //
 // Line protocol (one world per case; times are TRUE nanoseconds since the Unix epoch, decimal,
-// possibly beyond int64):
+// possibly beyond int64, optionally followed by a presentation "@<Z|offset minutes>[f<digits>]" that
+// only decides how the instant is SPELLED in the blob – 12:00:00Z, 12:00:00.000Z, 13:00:00+01:00 are
+// one instant – see parseTimeTok):
 //
 //	pn <key> <refhex> <dc|none> <tags> <d1,d2,…|->
 //	    uploads the planned permanode <key> (its ref must be <refhex>), then the claims
@@ -67,6 +69,7 @@ type world struct {
 type fileSpec struct {
 	pn      int
 	ft      time.Time
+	ftText  string
 	hasFT   bool
 	indexed bool
 }
@@ -124,6 +127,63 @@ func parseNanos(s string) (time.Time, bool) {
 	return time.Unix(sec.Int64(), nsec.Int64()).UTC(), true
 }
 
+// parseTimeTok parses a time argument of the protocol: <nanos>[@<zone>[f<k>]].  <nanos> is the instant;
+// the optional presentation says how the harness writes it into the blob: <zone> = Z or a UTC offset in
+// minutes (-840..840; 0 is written "+00:00"), <k> = the minimum number of fractional digits
+// ("12:00:00.000Z").  Without presentation: UTC, "Z", as few fractional digits as possible.  The local
+// year must stay within 0..9999.  text is the RFC 3339 form; presented tells whether one was given.
+func parseTimeTok(s string) (t time.Time, text string, presented bool, ok bool) {
+	base, pres, presented := strings.Cut(s, "@")
+	t, ok = parseNanos(base)
+	if !ok {
+		return
+	}
+	if !presented {
+		return t, t.Format(time.RFC3339Nano), false, true
+	}
+	ok = false
+	zone, ks, hasK := strings.Cut(pres, "f")
+	k := 0
+	if hasK {
+		if len(ks) != 1 || ks[0] < '0' || ks[0] > '9' {
+			return
+		}
+		k = int(ks[0] - '0')
+	}
+	off := 0
+	if zone != "Z" {
+		o, err := strconv.Atoi(zone)
+		if err != nil || strconv.Itoa(o) != zone || o < -840 || o > 840 {
+			return
+		}
+		off = o
+	}
+	lsec := t.Unix() + int64(off)*60 // the local wall clock must have a 4-digit year
+	if lsec < minSec || lsec > maxSec {
+		return
+	}
+	lt := t.In(time.FixedZone("", off*60))
+	text = lt.Format("2006-01-02T15:04:05")
+	frac := fmt.Sprintf("%09d", t.Nanosecond())
+	d := len(strings.TrimRight(frac, "0"))
+	if k > d {
+		d = k
+	}
+	if d > 0 {
+		text += "." + frac[:d]
+	}
+	if zone == "Z" {
+		text += "Z"
+	} else {
+		sign, a := "+", off
+		if a < 0 {
+			sign, a = "-", -a
+		}
+		text += fmt.Sprintf("%s%02d:%02d", sign, a/60, a%60)
+	}
+	return t, text, true, true
+}
+
 // Nanos is the inverse of parseNanos.
 func Nanos(t time.Time) string {
 	n := new(big.Int).Mul(big.NewInt(t.Unix()), e9)
@@ -138,8 +198,12 @@ func showTime(t time.Time, ok bool) string {
 	return Nanos(t)
 }
 
-func (w *world) claim(b *schema.Builder, d time.Time) {
+// claim signs and uploads a claim dated d; text, if not empty, is how the date is spelled in the blob.
+func (w *world) claim(b *schema.Builder, d time.Time, text string) {
 	b.SetClaimDate(d)
+	if text != "" {
+		b.SetRawStringField("claimDate", text)
+	}
 	w.id.Upload(w.id.Sign(b))
 }
 
@@ -159,10 +223,10 @@ func (w *world) addPN(words []string) string {
 	if !ok || len(want.Digest())%2 == 1 {
 		return "bad-op"
 	}
-	var dc time.Time
+	var dcText string
 	hasDC := dcs != "none"
 	if hasDC {
-		if dc, ok = parseNanos(dcs); !ok {
+		if _, dcText, _, ok = parseTimeTok(dcs); !ok {
 			return "bad-op"
 		}
 	}
@@ -177,13 +241,18 @@ func (w *world) addPN(words []string) string {
 		return "bad-op"
 	}
 	var dates []time.Time
+	var dateText []string // "" = let the schema builder spell it
 	if ds != "-" {
 		for _, s := range strings.Split(ds, ",") {
-			d, ok := parseNanos(s)
+			d, text, presented, ok := parseTimeTok(s)
 			if !ok || d.IsZero() || d.Unix() == 0 { // types.Time3339.IsAnyZero: not a claim date
 				return "bad-op"
 			}
+			if !presented {
+				text = ""
+			}
 			dates = append(dates, d)
+			dateText = append(dateText, text)
 		}
 	}
 	need := len(tagl)
@@ -212,19 +281,19 @@ func (w *world) addPN(words []string) string {
 	w.refs = append(w.refs, pn)
 	i := 0
 	if hasDC {
-		w.claim(schema.NewSetAttributeClaim(pn, "dateCreated", dc.Format(time.RFC3339Nano)), dates[i])
+		w.claim(schema.NewSetAttributeClaim(pn, "dateCreated", dcText), dates[i], dateText[i])
 		i++
 	}
 	for _, tg := range tagl {
 		if tg == "y" {
-			w.claim(schema.NewSetAttributeClaim(pn, "camliNodeType", "foo"), dates[i])
+			w.claim(schema.NewSetAttributeClaim(pn, "camliNodeType", "foo"), dates[i], dateText[i])
 		} else {
-			w.claim(schema.NewAddAttributeClaim(pn, "tag", tg), dates[i])
+			w.claim(schema.NewAddAttributeClaim(pn, "tag", tg), dates[i], dateText[i])
 		}
 		i++
 	}
 	for ; i < len(dates); i++ {
-		w.claim(schema.NewAddAttributeClaim(pn, "extra", fmt.Sprintf("x%d", i)), dates[i])
+		w.claim(schema.NewAddAttributeClaim(pn, "extra", fmt.Sprintf("x%d", i)), dates[i], dateText[i])
 	}
 	return w.times(pn)
 }
@@ -248,13 +317,16 @@ func keyOK(key string) bool {
 }
 
 // the file schema blob of a declared content file and its single chunk
-func fileBlobs(fkey string, ft time.Time, hasFT bool) (chunk, file *test.Blob) {
+func fileBlobs(fkey string, ft time.Time, ftText string, hasFT bool) (chunk, file *test.Blob) {
 	contents := "contents of " + fkey
 	chunk = &test.Blob{Contents: contents}
 	m := schema.NewFileMap("f-" + fkey + ".txt")
 	m.PopulateParts(int64(len(contents)), []schema.BytesPart{{Size: uint64(len(contents)), BlobRef: chunk.BlobRef()}})
 	if hasFT {
 		m.SetModTime(ft)
+		if ftText != "" {
+			m.SetRawStringField("unixMtime", ftText)
+		}
 	}
 	js, err := m.JSON()
 	if err != nil {
@@ -272,24 +344,32 @@ func (w *world) addCC(words []string) string {
 	if err != nil || strconv.Itoa(i) != words[1] || i < 0 || i >= len(w.refs) {
 		return "bad-op"
 	}
-	d, ok := parseNanos(words[3])
+	d, dText, dPres, ok := parseTimeTok(words[3])
+	if !dPres {
+		dText = ""
+	}
 	if !ok || d.IsZero() || d.Unix() == 0 || !d.Before(AttrClaimCutoff) {
 		return "bad-op"
 	}
 	var ft time.Time
+	var ftText string
 	hasFT := words[4] != "none"
 	if hasFT {
-		if ft, ok = parseNanos(words[4]); !ok || ft.IsZero() {
+		var pres bool
+		if ft, ftText, pres, ok = parseTimeTok(words[4]); !ok || ft.IsZero() {
 			return "bad-op"
+		}
+		if !pres {
+			ftText = ""
 		}
 	}
 	if !keyOK(words[2]) || w.hasCC[i] || w.files[words[2]] != nil {
 		return "bad-op"
 	}
-	_, fb := fileBlobs(words[2], ft, hasFT)
+	_, fb := fileBlobs(words[2], ft, ftText, hasFT)
 	w.hasCC[i] = true
-	w.files[words[2]] = &fileSpec{pn: i, ft: ft, hasFT: hasFT}
-	w.claim(schema.NewSetAttributeClaim(w.refs[i], "camliContent", fb.BlobRef().String()), d)
+	w.files[words[2]] = &fileSpec{pn: i, ft: ft, ftText: ftText, hasFT: hasFT}
+	w.claim(schema.NewSetAttributeClaim(w.refs[i], "camliContent", fb.BlobRef().String()), d, dText)
 	return w.times(w.refs[i])
 }
 
@@ -303,7 +383,7 @@ func (w *world) addFile(words []string) string {
 		return "bad-op"
 	}
 	f.indexed = true
-	chunk, fb := fileBlobs(words[1], f.ft, f.hasFT)
+	chunk, fb := fileBlobs(words[1], f.ft, f.ftText, f.hasFT)
 	w.id.Upload(chunk)
 	w.id.Upload(fb)
 	return w.times(w.refs[f.pn])
